@@ -171,3 +171,13 @@ Example C18_iterable_instance :
   = (let w := MkWire 3 0 (VInt 255) (VInt 255) (VInt 0) (VInt SCP_signal) [(1%nat, 20, 15, 4 + AppDiag_count)]
                      [(FByte, 1%nat, 0, VInt 9)] in [w; w; w], None).
 Proof. exact ex_iterable_instance. Qed.
+
+(* Observation (not claimed by the property either way): for the methods whose core argument names the
+   SUBJECT of the request (get_processor_status, get_iobuf*, read/write_vcpu_struct_field), the reads are
+   internal calls that do not pass p on; their destination core is resolved again and is the CONTEXT's p
+   when one is set (here 3, although the caller said 5), the monitor core 0 otherwise. *)
+Example C18_nested_core_instance :
+  call FUEL (MkCtl None None None [] []) "MC" "get_processor_status"
+       [[("app_id", VInt 66)]; [("x", VInt 1); ("y", VInt 2); ("p", VInt 3)]] [VInt 5] []
+  = ([MkWire 0 1 (VInt 1) (VInt 2) (VInt 3) VNone [] []; MkWire 0 1 (VInt 1) (VInt 2) (VInt 3) VNone [] []], None).
+Proof. exact ex_nested_core_instance. Qed.
